@@ -491,7 +491,7 @@ _PS_RULE = ("pubsub: 1-3 senders (1-4 Sends each) and 1-5 subscriber goroutines 
             "accepted step by step by the Lean protocol model (exact counter and caster word at every atomic event, who receives / absorbs, the value received is the current "
             "Send's, pongs published = values received, every Wait consumes a published pong, every Send's return value, nothing outstanding and not broken at the end); a call "
             "that does not return is reported as !stuck")
-_PS_C06_OBS = ("received a value that is not", "Send returned", "the iterator yielded", "acknowledged value differs", "pongs to wait for", "Wait consumed a pong",
+_PS_C06_OBS = ("its loop body was handed", "received a value that is not", "Send returned", "the iterator yielded", "acknowledged value differs", "pongs to wait for", "Wait consumed a pong",
                "Send stopped waiting", "Send returned before its pongs", "a value was received by a subscriber that is not between rounds", "fast path")
 _PS_C07_OBS = ("the model panics here", "did not return", "broken", "final validation panicked", "left through its deferred unlock", "subscribers left at the end",
                "final subscriber count", "caster word not 0")
